@@ -71,7 +71,7 @@ def run(pid, tier, seed, replay=None):
   ok_model, log_model = C.lake_build(['DK.Driver.Main'])
   if not ok_model:
     errs = C.build_errors(log_model)
-    if prop.uses_t1 and any('Gen/' in e for e in errs):
+    if prop.uses_t1 and (any('Gen/' in e or 'Gen.' in e for e in errs) or info.get('t1_fallback_units')):
       red.append(('t1-gen-does-not-compile', 'DK.Gen', '; '.join(errs[:3])))
     else:
       print('TOOL FAILURE: model driver does not build\n' + log_model[-3000:])
